@@ -102,6 +102,18 @@ def r2_key_coverage(ctx):
                    'a key that ignores one of them merges different positions')
 
 
+def r2b_key_faithful(ctx):
+    """the repetition key IS the position key: it distinguishes positions exactly if the toggle discipline of C05.R1-R3 holds"""
+    sub = type(ctx)(ctx.prop, ctx.tier, ctx.facts, ctx.facts_info, ctx.seed)
+    c05.r1_placement(sub)
+    c05.r23_stacks(sub)
+    for s in sub.samples:
+        ctx.ob(s['rule'].replace('C05.', 'C17.R2/C05.'), s['function'], s['instance'], s['ok'], found=s['found'], expected=s['expected'],
+               why='a recurrence separated by a lapsed en-passant opportunity or by a loss of castling rights must not be counted as the same '
+                   'position, and equal positions must get equal keys: the key has to be a function of the current position only',
+               nontrivial='floor' not in s['instance'])
+
+
 def r3_registration(ctx):
     rule = 'C17.R3-registration'
     facts = ctx.facts
@@ -161,5 +173,6 @@ def r4_constant(ctx):
 def run(ctx):
     r1_inverse(ctx)
     r2_key_coverage(ctx)
+    r2b_key_faithful(ctx)
     r3_registration(ctx)
     r4_constant(ctx)
